@@ -282,15 +282,17 @@ def shards(tier):
     else:
         for c0 in range(NKINDS):
             for fin in range(NFIN):
-                out.append(dict(name=f'chain2/c0={c0},fin={fin}', harness='chain2', fixed=dict(c0=c0, fin=fin), budget_s=300))
+                out.append(dict(name=f'chain2/c0={c0},fin={fin}', harness='chain2', fixed=dict(c0=c0, fin=fin), budget_s=600))
         for c0 in range(NKINDS):
             for c1 in range(NKINDS):
-                out.append(dict(name=f'chain3/c0={c0},c1={c1}', harness='chain3', fixed=dict(c0=c0, c1=c1), budget_s=600))
-        for c0 in range(NKINDS):
-            for c1 in range(NKINDS):
-                for c2 in range(NKINDS):
+                out.append(dict(name=f'chain3/c0={c0},c1={c1}', harness='chain3', fixed=dict(c0=c0, c1=c1, r2=-1), budget_s=1200))
+        # four-step chains for the command kinds with the richest argument flow (Continue with kwargs, Wait+resume(),
+        # Wait with msg/data), one restore anywhere
+        for c0 in (1, 4, 5):
+            for c1 in (1, 4, 5):
+                for c2 in (1, 4, 5):
                     out.append(dict(name=f'chain4/c0={c0},c1={c1},c2={c2}', harness='chain4',
-                                    fixed=dict(c0=c0, c1=c1, c2=c2), budget_s=900))
+                                    fixed=dict(c0=c0, c1=c1, c2=c2, r1=-1, r2=-1), budget_s=1200))
     return out
 
 
@@ -298,8 +300,8 @@ BOUNDS = {
     'quick': dict(chain_steps='<= 3 (run + 2 continuations)', command_kinds=NKINDS, final_kinds=NFIN,
                   restore_points='chains of <= 2 restores (2-step chain) or 1 restore (3-step chain) at any state entry (CREATED, each RUNNING, each WAITING), snapshot taken inside the ENTERED_STATE callback',
                   data='int unbounded (z3 Int); str length <= 2'),
-    'thorough': dict(chain_steps='<= 4', command_kinds=NKINDS, final_kinds=NFIN,
-                     restore_points='every set of <= 3 of the state entries', data='int unbounded; str length <= 2'),
+    'thorough': dict(chain_steps='<= 3 for all 7 command kinds (<= 3 restores for 2-step, <= 2 for 3-step chains); 4-step chains over 3 kinds with one restore', command_kinds=NKINDS, final_kinds=NFIN,
+                     restore_points='chains of restores at any state entry', data='int unbounded; str length <= 2'),
 }
 OUTSIDE = ['chains longer than the bound', 'more than two positional / one keyword argument per Continue',
            'pickle/YAML as restore medium (data must be concrete there; covered by C07)', 'async step functions (C05/C08)']
